@@ -110,3 +110,84 @@ Proof.
   - intros n I. simpl in I. repeat (destruct I as [<-|I]; [vm_compute; reflexivity|]). destruct I.
   - intros D. assert (E : 5%N = 6%N) by (apply D; [simpl; auto 20|simpl; auto 20|vm_compute; reflexivity]). discriminate E.
 Qed.
+
+(** the same for EVERY parsed presentation of the canonical graphs (audit remark): the sort key (colour, degree, id) is total on
+    distinct ids, so the second canonical order does not depend on the listing order of the atoms / bonds either *)
+From SK Require Import proof.C09_Graph proof.C09_Backends.
+From SK Require proof.C08_SigFun.
+
+Lemma wl_order_after (ranks1 ranks2 : list (N * Z)) (G G' : mgraph) (f1 : N -> N) :
+  wf G -> (forall a b, f1 a = f1 b -> a = b) ->
+  (forall n, In n (wl_order ranks1 G) -> f1 n = sigma_of (wl_order ranks1 G) n) ->
+  presents f1 G G' ->
+  (forall n, In n (node_ids G) -> C08_Model.rank_of ranks2 (sigma_of (wl_order ranks1 G) n) = C08_Model.rank_of ranks1 n) ->
+  wl_order ranks2 G' = map f1 (wl_order ranks1 G).
+Proof.
+  intros WG Finj Fs1 RG2 Hr. pose proof (wl_enumerates ranks1 G WG) as (O1 & I1). set (order1 := wl_order ranks1 G) in *.
+  assert (Ef : map f1 order1 = map (sigma_of order1) order1) by (apply map_ext_in; intros n I; apply Fs1; exact I).
+  assert (Epos : map f1 order1 = map N.of_nat (seq 1 (length order1))).
+  { rewrite Ef. unfold sigma_of. apply (C08_Sort.mapping_of_map order1 O1). }
+  assert (P : Permutation (node_ids G') (map f1 order1)).
+  { eapply Permutation_trans; [apply (presents_node_ids f1 G G' RG2)|]. apply Permutation_map. apply Permutation_sym.
+    apply NoDup_Permutation; [exact O1|destruct WG as (A & _); exact A|exact I1]. }
+  unfold wl_order at 1. cbv zeta. rewrite node_ids_to_c08.
+  rewrite (C08_Sort.sort_by_perm_eq _ (node_ids G') (map f1 order1) P)
+    by (intros x y _ _ E; injection E as _ _ E; apply N2Z.inj; exact E).
+  rewrite C08_Sort.sort_by_map. f_equal.
+  set (rk := C08_Model.rank_of ranks1). set (dg := C08_Model.degree (to_c08 G)).
+  rewrite (sort_by_ext _ (fun n => [rk n; dg n; Z.of_N (f1 n)])).
+  - apply (sorted_fixed rk dg f1 order1 O1); [intros x y _ _ E; apply Finj; exact E|exact Epos|].
+    unfold order1, wl_order. cbv zeta. rewrite node_ids_to_c08. apply C08_Sort.sort_by_sorted.
+  - intros x y Ix Iy.
+    assert (K : forall n, In n order1 ->
+              [C08_Model.rank_of ranks2 (f1 n); C08_Model.degree (to_c08 G') (f1 n); Z.of_N (f1 n)] = [rk n; dg n; Z.of_N (f1 n)]).
+    { intros n In_. f_equal; [|f_equal].
+      - rewrite (Fs1 n In_). apply Hr. apply I1. exact In_.
+      - apply (C08_Equiv.degree_rel f1 Finj (to_c08 G) (to_c08 G') (geq_cov_presents f1 G G' RG2)). }
+    rewrite (K x Ix), (K y Iy). reflexivity.
+Qed.
+
+Theorem fixed_point_wl_ties_sg (ranks1 : list (N * Z)) (G H : mgraph) :
+  parsed G -> parsed H -> (exists s, In s (node_ids G) /\ In s (node_ids H)) ->
+  exists (pairs1 : list (N * N)) (Gc1 Hc1 : mgraph),
+    canonicalise_wl ranks1 G H = Some (Gc1, pairs1, Hc1) /\
+    forall (ranks2 : list (N * Z)) (G' H' : mgraph), parsed G' -> parsed H' -> same_graph G' Gc1 -> same_graph H' Hc1 ->
+      (forall n, In n (node_ids G) -> C08_Model.rank_of ranks2 (sigma_of (wl_order ranks1 G) n) = C08_Model.rank_of ranks1 n) ->
+      exists (pairs2 : list (N * N)) (Gc2 Hc2 : mgraph),
+        canonicalise_wl ranks2 G' H' = Some (Gc2, pairs2, Hc2) /\ same_graph Gc2 Gc1 /\ same_graph Hc2 Hc1.
+Proof.
+  intros PG PH Hs. pose proof PG as (WG & _).
+  pose proof (wl_enumerates ranks1 G WG) as En1. pose proof En1 as (O1 & I1).
+  destruct (fixed_point_sg G H (canon_rebuild (wl_order ranks1 G) G) (wl_order ranks1 G) PG PH Hs En1 (rebuild_relabelled _ G WG En1))
+    as (pairs1 & Gc1 & Hc1 & f1 & E1 & Finj & Fs & Hfix).
+  exists pairs1, Gc1, Hc1. split; [exact E1|].
+  intros ranks2 G' H' PG2 PH2 SG SH Hr. pose proof PG2 as (WG2 & _).
+  destruct (Hfix G' H' PG2 PH2 SG SH) as (RG2 & Hrun).
+  pose proof (wl_enumerates ranks2 G' WG2) as En2.
+  assert (Ord2 : wl_order ranks2 G' = map f1 (wl_order ranks1 G)).
+  { apply wl_order_after; auto. intros n I. apply Fs. apply I1. exact I. }
+  destruct (Hrun (wl_order ranks2 G') (canon_rebuild (wl_order ranks2 G') G') En2 (rebuild_relabelled _ _ WG2 En2))
+    as (pairs2 & Gc2 & Hc2 & E2 & EG & S1 & S2).
+  - intros n I. rewrite Ord2. apply (sigma_of_map f1 Finj).
+  - exists pairs2, Gc2, Hc2. unfold canonicalise_wl. rewrite E2. auto.
+Qed.
+
+(** string level: CanonRSMI(backend="wl").canonical_rsmi is a fixed point - with tied colours too - relative to the RDKit
+    contracts [writer_ok] / [reads_back] and the correspondence of the colours of the second run *)
+Theorem canonical_rsmi_fixed_point_wl_ties (W : mgraph -> StrJoin.str) (P : StrJoin.str -> option (mgraph * mgraph)) (ranks1 : list (N * Z)) (G H : mgraph) :
+  writer_ok W ->
+  parsed G -> parsed H -> (exists s, In s (node_ids G) /\ In s (node_ids H)) ->
+  (forall Gc1 pairs1 Hc1, canonicalise_wl ranks1 G H = Some (Gc1, pairs1, Hc1) -> reads_back W P Gc1 Hc1) ->
+  exists s G' H', C09_Strings.canonical_rsmi W (canonicalise_wl ranks1 G H) = Some s /\ P s = Some (G', H') /\
+    forall ranks2 : list (N * Z),
+      (forall n, In n (node_ids G) -> C08_Model.rank_of ranks2 (sigma_of (wl_order ranks1 G) n) = C08_Model.rank_of ranks1 n) ->
+      C09_Strings.canonical_rsmi W (canonicalise_wl ranks2 G' H') = Some s.
+Proof.
+  intros HW PG PH Hs HP.
+  destruct (fixed_point_wl_ties_sg ranks1 G H PG PH Hs) as (pairs1 & Gc1 & Hc1 & E1 & Hfix).
+  destruct (HP Gc1 pairs1 Hc1 E1) as (G' & H' & EP & PG2 & PH2 & SG & SH).
+  exists (W Gc1 ++ C09_Strings.GG ++ W Hc1), G', H'. rewrite E1. split; [reflexivity|]. split; [exact EP|].
+  intros ranks2 Hrk.
+  destruct (Hfix ranks2 G' H' PG2 PH2 SG SH Hrk) as (pairs2 & Gc2 & Hc2 & E2 & S1 & S2).
+  rewrite E2. unfold C09_Strings.canonical_rsmi. rewrite (HW _ _ S1), (HW _ _ S2). reflexivity.
+Qed.
